@@ -212,7 +212,15 @@ func (encryptor *HashQuery) OnBind(ctx context.Context, parseResult *pg_query.Pa
 	}
 
 	bindData := postgresql.ParseSearchQueryPlaceholdersSettings(parseResult, encryptor.schemaStore)
-	if len(bindData) > len(indexes) {
+	// bindData describes the placeholders of consistently tokenized columns (the tokenizer's) as well:
+	// only the ones hashed here have to be among the indexes found above
+	own := 0
+	for _, setting := range bindData {
+		if setting.IsSearchable() {
+			own++
+		}
+	}
+	if own > len(indexes) {
 		return values, false, nil
 	}
 
